@@ -129,10 +129,11 @@ def gen_test_faults(rng, disc, n, excs=TEST_EXC_ALL, p_occ=0.0):
 # ---------------------------------------------------------------------------------------
 # output parsing
 
-RAN_RE = re.compile(r'^  Ran (\d+) tests with (\d+) failures, (\d+) errors and (\d+) skipped in ',
-                    re.M)
-TOTAL_RE = re.compile(r'^Total: (\d+) tests, (\d+) failures, (\d+) errors and (\d+) skipped in ',
-                      re.M)
+# (the colour formatter words it "errors, N skipped")
+RAN_RE = re.compile(r'^  Ran (\d+) tests with (\d+) failures, (\d+) errors(?: and|,) (\d+) '
+                    r'skipped in ', re.M)
+TOTAL_RE = re.compile(r'^Total: (\d+) tests, (\d+) failures, (\d+) errors(?: and|,) (\d+) '
+                      r'skipped in ', re.M)
 RUNNING_RE = re.compile(r'^Running (\S+) tests:$', re.M)
 LISTING_RE = re.compile(r'^Listing (\S+) tests:$', re.M)
 
